@@ -17,6 +17,23 @@ for attempt in range(3):
             name = e['Package'] + '::' + e['Test']
             (passed if e['Action']=='pass' else failed).add(name)
     if stable <= passed: break
+# the baseline's flaky TestLinkedListQueue aborts the root package's test binary in most runs on this
+# machine (70% at the pinned commit too); tests that never got to run are re-run by name
+missing = sorted(stable - passed)
+if missing:
+    bypkg = {}
+    for m in missing:
+        pkg, t = m.split('::')
+        bypkg.setdefault(pkg, []).append(t)
+    for pkg, ts in bypkg.items():
+        rel = './' + pkg.split('/v2')[-1].lstrip('/') if pkg.endswith(('worker','network')) else '.'
+        p = subprocess.run(['go','test','-json','-vet=off','-count=1','-run','^(' + '|'.join(ts) + ')$', rel], capture_output=True, text=True)
+        for ln in p.stdout.splitlines():
+            try: e = json.loads(ln)
+            except Exception: continue
+            if e.get('Test') and e.get('Action') in ('pass','fail'):
+                name = e['Package'] + '::' + e['Test']
+                (passed if e['Action']=='pass' else failed).add(name)
 missing = sorted(stable - passed)
 print(f"baseline(off): {len(stable & passed)}/{len(stable)} stable tests passed; failing-in-some-run: {sorted(failed & stable)}")
 if missing:
